@@ -163,18 +163,22 @@ fn roundtrip_text(width: u8, be: bool, bom: bool, n: usize, cs: [u32; 3]) -> usi
     enc.n
 }
 
-/// (b) all 21 texts  c0 | c0 c1 | c0 c1 c2  with c1, c2 in SET (every index pair enumerated by a
-/// concrete loop, so each decode runs with concrete lengths).  c0 is 'a' (`symbolic_c0 == false`)
-/// or a SYMBOLIC ASCII character 0x01..=0x7F.  Returns a bit set of the length residues mod 4 that
-/// occurred.
-fn roundtrip_set(width: u8, be: bool, bom: bool, symbolic_c0: bool) -> u8 {
-    let c0: u32 = if symbolic_c0 {
+fn first_scalar(symbolic_c0: bool) -> u32 {
+    if symbolic_c0 {
         let c: u8 = kani::any();
         kani::assume(c >= 1 && c <= 0x7F);
         c as u32
     } else {
         SET[0]
-    };
+    }
+}
+
+/// (b) all 21 texts  c0 | c0 c1 | c0 c1 c2  with c1, c2 in SET (every index pair enumerated by a
+/// concrete loop, so each decode runs with concrete lengths).  c0 is 'a' (`symbolic_c0 == false`)
+/// or a SYMBOLIC ASCII character 0x01..=0x7F.  Returns a bit set of the length residues mod 4 that
+/// occurred.
+fn roundtrip_set(width: u8, be: bool, bom: bool, symbolic_c0: bool) -> u8 {
+    let c0 = first_scalar(symbolic_c0);
     let mut residues: u8 = 0;
     let l = roundtrip_text(width, be, bom, 1, [c0, 0, 0]);
     residues |= 1 << (l % 4);
@@ -193,15 +197,43 @@ fn roundtrip_set(width: u8, be: bool, bom: bool, symbolic_c0: bool) -> u8 {
     residues
 }
 
+/// (b, sample) the 4 texts  c0 | c0 U+20AC | c0 U+00E9 U+20AC | c0 U+00E9 U+1F600 : UTF-8 lengths
+/// 1, 4, 6, 7 (with BOM 4, 7, 9, 10), UTF-16 lengths 2, 4, 6, 8 (+2), i.e. every feasible length
+/// residue mod 4, a BMP and a non-BMP character.
+fn roundtrip_sample(width: u8, be: bool, bom: bool, symbolic_c0: bool) -> u8 {
+    let c0 = first_scalar(symbolic_c0);
+    let mut residues: u8 = 0;
+    let l = roundtrip_text(width, be, bom, 1, [c0, 0, 0]);
+    residues |= 1 << (l % 4);
+    let l = roundtrip_text(width, be, bom, 2, [c0, SET[2], 0]);
+    residues |= 1 << (l % 4);
+    let l = roundtrip_text(width, be, bom, 3, [c0, SET[1], SET[2]]);
+    residues |= 1 << (l % 4);
+    let l = roundtrip_text(width, be, bom, 3, [c0, SET[1], SET[3]]);
+    residues |= 1 << (l % 4);
+    residues
+}
+
 macro_rules! c17_roundtrip {
-    ($name:ident, $symname:ident, $width:expr, $be:expr, $bom:expr, $residues:expr, $doc:literal) => {
+    ($qname:ident, $name:ident, $symname:ident, $width:expr, $be:expr, $bom:expr, $residues:expr, $doc:literal) => {
         #[doc = $doc]
         ///
-        /// Checks `load_tail(E(s)) == s` (load_tail = verbatim `decode_raw_bytes` + BOM strip of
-        /// `load`) for the 21 texts of 1..=3 scalars whose first scalar is 'a' and whose other
-        /// scalars range over {U+0061, U+00E9, U+20AC, U+1F600} (all index combinations
-        /// enumerated; all data concrete, CBMC acts as an interpreter of the real code); asserts
-        /// that every length residue mod 4 the encoding can produce occurred.
+        /// QUICK SAMPLE: `load_tail(E(s)) == s` (load_tail = verbatim `decode_raw_bytes` + BOM strip
+        /// of `load`) for the 4 texts a | a U+20AC | a U+00E9 U+20AC | a U+00E9 U+1F600 (all data
+        /// concrete: CBMC acts as an interpreter of the real code); asserts that every length residue
+        /// mod 4 the encoding can produce occurred.  BOUNDED (4 texts).
+        #[kani::proof]
+        #[kani::unwind(18)]
+        fn $qname() {
+            let residues = roundtrip_sample($width, $be, $bom, false);
+            assert!(residues == $residues, "C17 harness: length residues mod 4 not all covered");
+        }
+
+        #[doc = $doc]
+        ///
+        /// `load_tail(E(s)) == s` for the 21 texts of 1..=3 scalars whose first scalar is 'a' and
+        /// whose other scalars range over {U+0061, U+00E9, U+20AC, U+1F600} (all index combinations
+        /// enumerated; all data concrete); every feasible length residue mod 4 occurs.
         /// BOUNDED (21 texts).
         #[kani::proof]
         #[kani::unwind(18)]
@@ -212,28 +244,28 @@ macro_rules! c17_roundtrip {
 
         #[doc = $doc]
         ///
-        /// As the harness without `sym`, but the first scalar is ANY ASCII character 0x01..=0x7F
-        /// (symbolic; this makes the UTF-16/UTF-32 detection branches live for the solver).
-        /// BOUNDED (21 text shapes x 127 first characters).
+        /// As the quick sample, but the first scalar is ANY ASCII character 0x01..=0x7F (symbolic;
+        /// this makes the UTF-16/UTF-32 detection branches live for the solver).
+        /// BOUNDED (4 text shapes x 127 first characters).
         #[kani::proof]
         #[kani::unwind(18)]
         fn $symname() {
-            let residues = roundtrip_set($width, $be, $bom, true);
+            let residues = roundtrip_sample($width, $be, $bom, true);
             assert!(residues == $residues, "C17 harness: length residues mod 4 not all covered");
         }
     };
 }
 
-c17_roundtrip!(c17_rt_utf8, c17_rtsym_utf8, 1, false, false, 0b1111, "C17(b) UTF-8 without BOM, 1..=9 bytes.");
-c17_roundtrip!(c17_rt_utf8_bom, c17_rtsym_utf8_bom, 1, false, true, 0b1111, "C17(b) UTF-8 with BOM, 4..=12 bytes.");
-c17_roundtrip!(c17_rt_utf16le, c17_rtsym_utf16le, 2, false, false, 0b0101, "C17(b) UTF-16LE without BOM, 2..=10 bytes.");
-c17_roundtrip!(c17_rt_utf16le_bom, c17_rtsym_utf16le_bom, 2, false, true, 0b0101, "C17(b) UTF-16LE with BOM, 4..=12 bytes.");
-c17_roundtrip!(c17_rt_utf16be, c17_rtsym_utf16be, 2, true, false, 0b0101, "C17(b) UTF-16BE without BOM, 2..=10 bytes.");
-c17_roundtrip!(c17_rt_utf16be_bom, c17_rtsym_utf16be_bom, 2, true, true, 0b0101, "C17(b) UTF-16BE with BOM, 4..=12 bytes.");
-c17_roundtrip!(c17_rt_utf32le, c17_rtsym_utf32le, 4, false, false, 0b0001, "C17(b) UTF-32LE without BOM, 4..=12 bytes.");
-c17_roundtrip!(c17_rt_utf32le_bom, c17_rtsym_utf32le_bom, 4, false, true, 0b0001, "C17(b) UTF-32LE with BOM, 8..=16 bytes.");
-c17_roundtrip!(c17_rt_utf32be, c17_rtsym_utf32be, 4, true, false, 0b0001, "C17(b) UTF-32BE without BOM, 4..=12 bytes.");
-c17_roundtrip!(c17_rt_utf32be_bom, c17_rtsym_utf32be_bom, 4, true, true, 0b0001, "C17(b) UTF-32BE with BOM, 8..=16 bytes.");
+c17_roundtrip!(c17_rtq_utf8, c17_rt_utf8, c17_rtsym_utf8, 1, false, false, 0b1111, "C17(b) UTF-8 without BOM.");
+c17_roundtrip!(c17_rtq_utf8_bom, c17_rt_utf8_bom, c17_rtsym_utf8_bom, 1, false, true, 0b1111, "C17(b) UTF-8 with BOM.");
+c17_roundtrip!(c17_rtq_utf16le, c17_rt_utf16le, c17_rtsym_utf16le, 2, false, false, 0b0101, "C17(b) UTF-16LE without BOM.");
+c17_roundtrip!(c17_rtq_utf16le_bom, c17_rt_utf16le_bom, c17_rtsym_utf16le_bom, 2, false, true, 0b0101, "C17(b) UTF-16LE with BOM.");
+c17_roundtrip!(c17_rtq_utf16be, c17_rt_utf16be, c17_rtsym_utf16be, 2, true, false, 0b0101, "C17(b) UTF-16BE without BOM.");
+c17_roundtrip!(c17_rtq_utf16be_bom, c17_rt_utf16be_bom, c17_rtsym_utf16be_bom, 2, true, true, 0b0101, "C17(b) UTF-16BE with BOM.");
+c17_roundtrip!(c17_rtq_utf32le, c17_rt_utf32le, c17_rtsym_utf32le, 4, false, false, 0b0001, "C17(b) UTF-32LE without BOM.");
+c17_roundtrip!(c17_rtq_utf32le_bom, c17_rt_utf32le_bom, c17_rtsym_utf32le_bom, 4, false, true, 0b0001, "C17(b) UTF-32LE with BOM.");
+c17_roundtrip!(c17_rtq_utf32be, c17_rt_utf32be, c17_rtsym_utf32be, 4, true, false, 0b0001, "C17(b) UTF-32BE without BOM.");
+c17_roundtrip!(c17_rtq_utf32be_bom, c17_rt_utf32be_bom, c17_rtsym_utf32be_bom, 4, true, true, 0b0001, "C17(b) UTF-32BE with BOM.");
 
 /// a symbolic scalar value whose UTF-8 form has exactly `class` bytes (class 1 excludes U+0000;
 /// class 3 excludes the surrogates D800..DFFF)
